@@ -4,6 +4,8 @@ import json, os, subprocess, sys, time, fcntl
 V = os.path.dirname(os.path.abspath(__file__))
 TAGSUF = os.environ.get("MW_TAG", "")
 NPROC = int(os.environ.get("VERIF_JOBS", "16"))
+# evidence of runs against anything but /repo (seeded-change experiments) never lands in evidence/
+EVDIR = f"{V}/evidence" if not TAGSUF and os.environ.get("MW_REPO", "/repo") == "/repo" else f"{V}/target/evidence{TAGSUF}"
 
 
 def build():
@@ -65,7 +67,7 @@ def run(pid, tier, seed, spec):
     t0 = time.time()
     bt = build()
     os.makedirs(f"{V}/replays", exist_ok=True)
-    os.makedirs(f"{V}/evidence", exist_ok=True)
+    os.makedirs(EVDIR, exist_ok=True)
     sd = f"{V}/target/shards{TAGSUF}"
     os.makedirs(sd, exist_ok=True)
     budget = int(os.environ.get("VERIF_BUDGET_S", "300"))
@@ -135,7 +137,7 @@ def run(pid, tier, seed, spec):
         "assumptions": spec.get("assumptions", []),
         "wall_s": round(wall, 2), "violations": len(uniq), "known_findings_hit": list(hits), "inconclusive": inconclusive,
     }
-    json.dump(ev, open(f"{V}/evidence/{pid}.json", "w"), indent=1)
+    json.dump(ev, open(f"{EVDIR}/{pid}.json", "w"), indent=1)
     for k in hits.values():
         print(f"KNOWN-FINDING: property={pid} {k['what']}")
     if uniq:
